@@ -8,6 +8,7 @@ mod c02;
 mod c13;
 mod world;
 mod hot;
+mod thr;
 pub mod util;
 
 fn main() {
@@ -23,6 +24,7 @@ fn main() {
         "c13" => c13::run_case,
         "world" => world::run_case,
         "hot" => hot::run_case,
+        "thr" => thr::run_case,
         p => {
             eprintln!("unknown property {}", p);
             std::process::exit(2);
